@@ -187,6 +187,12 @@ def check_C13(lines, obs):
 
 
 def check_C15(lines, obs):
+    for ln, ob in zip(lines, obs):
+        if ln.startswith("probe_dims ") and ob.endswith("LOOKUP-LEAK"):
+            return fail(ln, "a result's dimension set can be modified in place without affecting the source or any other array "
+                            "(what the other sets list and what they answer to lookups)", "others unaffected", ob[-60:])
+        if ln.startswith("split ") and ob.endswith("ALIASED"):
+            return fail(ln, "the parts returned by split are independent of the array that was split", "independent", "ALIASED")
     for ln, ob, before, after in walk(lines, obs):
         t = ln.split(" ")
         op = t[0]
